@@ -92,13 +92,24 @@ def stream_serialize_vlq(f: BinaryIO, i: int) -> None:
 def stream_deserialize_vlq(f: BinaryIO) -> int:
     """ """
     result = 0
+    consumed = []
 
     while True:
-        (b,) = struct.unpack(b"B", safe_read(f, 1))
+        raw = safe_read(f, 1)
+        consumed.append(raw)
+        (b,) = struct.unpack(b"B", raw)
 
         result += (b % 128)
 
         if b < 128:
-            return result
+            break
 
         result *= 128
+
+    # each value has a single accepted encoding: the one stream_serialize_vlq produces
+    canonical = BytesIO()
+    stream_serialize_vlq(canonical, result)
+    if canonical.getvalue() != b"".join(consumed):
+        raise DeserializationError("Non-canonical VLQ encoding")
+
+    return result
